@@ -11,7 +11,7 @@ KINDS = ["co", "st", "pr", "co_att", "st_att", "dummy_co", "dummy_st", "dummy_pr
 
 NOT_YET_PROVED = [
     "C08 full functional theorem: the k-th answer equals credb/skepb on the specification store and the certificate satisfies the C04 statement, for every valid SAT answer script. Proved so far: framework refinement, table / allocator invariant, correctness of the clause templates (sound + complete), certificate well-formedness for SAT-computed complete/stable certificates, cache soundness of the preferred solver. Missing: the clause-set invariant over histories (clauses of the session == union of the template groups of the current framework + constraints over dead variables only)",
-    "C09: every later answer is that of the framework without the rejected / redundant operations (same functional part); no later query aborts",
+    "C09: every later answer is that of the framework without the rejected / redundant operations (same functional part); 'no later query panics' is proved for the complete / stable / preferred solvers only (not for the assumptions-on-attacks variants and the wrapper)",
     "table invariant of the assumptions-on-attacks encoder (n_arg_vars, next_dummy_arg_var, need_to_encode)",
 ]
 
